@@ -39,6 +39,10 @@ func c20Alphabet(files []*sFile, thorough bool) func(hist []sAction) []sAction {
 		}
 		if histCount(hist, "short", "", 0) < 1 {
 			out = append(out, sAction{Op: "short", F: "a1", P: 0}, sAction{Op: "short", F: "b1", P: 0})
+			if a1done || thorough {
+				// the first part of the new version is cut short: its partial exists, its companion not yet
+				out = append(out, sAction{Op: "short", F: "a2", P: 0})
+			}
 		}
 		if histCount(hist, "adv12h", "", 0) < 1 {
 			out = append(out, sAction{Op: "adv12h"})
